@@ -263,6 +263,43 @@ def rh_structural(rnd, vectors, per_kind=6):
     return out
 
 
+def rh_numeric_wild(rnd, n, vectors):
+    """score texts that exercise the interpreter's number parsing and printing near and far from the true score (no claim is made
+    about what they denote: used where interpreters are compared with each other, C20)"""
+    out = []
+    pool = [v for v in vectors if v[2] is not None]
+    for _ in range(n):
+        ver, s, base = rnd.choice(pool)
+        x = base / 10.0
+        k = rnd.randrange(12)
+        if k == 0:
+            t = "%.*f" % (rnd.choice([11, 12, 13, 14, 15, 16, 17, 20]), x + rnd.choice([-1, 1]) * 10.0 ** -rnd.choice([10, 11, 12, 13, 14, 15, 16]))
+        elif k == 1:
+            t = repr(x) + "0" * rnd.randrange(1, 30) + rnd.choice(["", "1", "9"])
+        elif k == 2:
+            t = "%d%s" % (int(x), ("%.17f" % (x - int(x)))[1:])
+        elif k == 3:
+            t = "%.*e" % (rnd.choice([0, 1, 5, 12, 15, 16, 17]), x)
+        elif k == 4:
+            t = rnd.choice(["1e400", "-1e400", "1e-400", "4.9e-324", "1.7976931348623157e308", "1e308", "2.2250738585072014e-308"])
+        elif k == 5:
+            t = rnd.choice(["0x1p3", "0x7.8p0", "1e5_0", "1_0", "1__0", "٧.٥", "７.５", "7.5\u00a0", "\u20097.5", "7.5\x1f", "\x1c7.5"])
+        elif k == 6:
+            t = str(base) + "e-1" if rnd.random() < 0.5 else "%de-%d" % (base * 10 ** rnd.choice([1, 5, 14, 18]), rnd.choice([2, 6, 15, 19]))
+        elif k == 7:
+            t = "%.12g" % (x + rnd.choice([-1, 1]) * 1e-13)
+        elif k == 8:
+            t = repr(x + rnd.choice([-1, 1]) * rnd.choice([1e-13, 1e-14, 1e-15, 2e-16, 1e-16]))
+        elif k == 9:
+            t = ("0" * rnd.randrange(1, 20)) + repr(x)
+        elif k == 10:
+            t = repr(x).replace(".", rnd.choice([",", "..", ". ", " ."]))
+        else:
+            t = rnd.choice(["+", "-", "++", "+-"]) + repr(x)
+        out.append((ver, t + "/" + s))
+    return out
+
+
 def rh_strings(rnd, n, vectors):
     """score-text / vector-text compositions; vectors = [(ver, s, base_tenths or None)]"""
     out = []
